@@ -210,6 +210,15 @@ def rule_writers_closed(ctx, facts, prefix="C02-R7"):
         for c in b.calls:
             if c.name in writers:
                 callers.add(b.id)
+    # a private helper that is only ever called from the edit driver counts as the driver
+    from ..interproc import callers_index
+    idx = callers_index(facts)
+    for cid in list(callers):
+        if not re.search(edit.GENERATE, cid):
+            up = {x.id for (x, _) in idx.get(cid, [])}
+            if up and all(re.search(edit.GENERATE, u) for u in up):
+                callers.discard(cid)
+                callers |= up
     ok = all(re.search(edit.GENERATE, x) for x in callers)
     ctx.check(ok and callers, prefix, "writer-callers", "the lock writer is called only from the edit driver (%s)" % ", ".join(sorted(callers)), "")
 
